@@ -22,7 +22,8 @@ MOD = "pv.props.c12"
 
 STYLES = ["positional", "keyword", "mixed"]
 RETURNS = ["array", "tuple", "dict"]
-SITES = ["single", "repeated_swapped", "nested2", "nested3", "caller_named_like_params", "args_are_exprs"]
+SITES = ["single", "repeated_swapped", "nested2", "nested3", "caller_named_like_params", "args_are_exprs",
+         "same_name_other_body"]
 
 
 def _has_call(dag):
@@ -60,10 +61,11 @@ def call_job(prog: str, style: str, ret: str, site: str) -> JobOut:
         """call *fn* through trace_call in the requested argument style"""
         if style == "positional":
             return pt.trace_call(fn, *[vals[n] for n in names])
+        # keywords are written in *reverse* (non-alphabetical) order at the call site
         if style == "keyword":
-            return pt.trace_call(fn, **vals)
+            return pt.trace_call(fn, **{n: vals[n] for n in reversed(names)})
         k = max(1, len(names) // 2)
-        return pt.trace_call(fn, *[vals[n] for n in names[:k]], **{n: vals[n] for n in names[k:]})
+        return pt.trace_call(fn, *[vals[n] for n in names[:k]], **{n: vals[n] for n in reversed(names[k:])})
 
     # caller inputs
     if site == "caller_named_like_params":
@@ -82,6 +84,20 @@ def call_job(prog: str, style: str, ret: str, site: str) -> JobOut:
         elif site == "args_are_exprs":
             args = {n: (ins[n] + ins[n] if dtypes[n] != np.bool_ else ins[n]) for n in names}
             called, direct = as_dict(call(f, args)), as_dict(f(**args))
+        elif site == "same_name_other_body":
+            # two *different* functions that carry the same Python name, called in one graph
+            def f2(*a, **kw):
+                r = f(*a, **kw)
+                if isinstance(r, pt.Array):
+                    return r * 2 + 1
+                if isinstance(r, tuple):
+                    return tuple(v * 2 + 1 for v in r)
+                return {k_: v * 2 + 1 for k_, v in r.items()}
+            f2.__name__ = f.__name__
+            c1, c2 = as_dict(call(f, ins)), as_dict(call(f2, ins))
+            d1, d2 = as_dict(f(**ins)), as_dict(f2(**ins))
+            called = {f"a{k}": v for k, v in c1.items()} | {f"b{k}": v for k, v in c2.items()}
+            direct = {f"a{k}": v for k, v in d1.items()} | {f"b{k}": v for k, v in d2.items()}
         elif site == "repeated_swapped":
             a1 = dict(ins)
             a2 = dict(ins)
@@ -161,7 +177,8 @@ def jobs(tier: str, seed: int):
     for i, P in enumerate(progs):
         for style in STYLES:
             for ret in RETURNS:
-                sites = SITES if th else [SITES[(i + STYLES.index(style) + RETURNS.index(ret)) % len(SITES)], "single"]
+                sites = SITES if th else [SITES[(i + STYLES.index(style) + RETURNS.index(ret)) % len(SITES)], "single",
+                                          "same_name_other_body"][: 3 if (i + RETURNS.index(ret)) % 2 == 0 else 2]
                 for site in dict.fromkeys(sites):
                     J.append(Job(MOD, "call_job", {"prog": P.name, "style": style, "ret": ret, "site": site},
                                  jid=f"{P.name}/{style}/{ret}/{site}", hard_timeout=900))
